@@ -36,6 +36,19 @@ func (r *Run) intrinsic1(name string, fn *ssa.Function) externalFn {
 			return callSSA(fr.i, fr.caller, 0, target, args, nil)
 		}
 	}
+	if r.cfg.opaque[name] {
+		r.cfg.usedStub(name + " (opaque: zero result)")
+		return func(fr *frame, args []value) value {
+			res := fn.Signature.Results()
+			switch res.Len() {
+			case 0:
+				return nil
+			case 1:
+				return zero(res.At(0).Type())
+			}
+			return zero(res)
+		}
+	}
 	if i := strings.LastIndex(name, "/verif."); i >= 0 && strings.HasSuffix(name[:i], "internal") || strings.HasPrefix(name, "verif.") {
 		short := name[strings.LastIndex(name, ".")+1:]
 		if f, ok := verifFns[short]; ok {
@@ -695,8 +708,8 @@ func (r *Run) formatOne(fr *frame, verb string, arg value) value {
 		}
 		return "\x00sym" + string(v) + "\x00"
 	case *enumStr:
-		s := a.choices[r.concretize(a.idx, "fmt of enum string", 64)]
-		return fmt.Sprintf(verb, s)
+		// the text of a symbolic token kind is not the subject of any check: opaque placeholder
+		return "\x00enum" + string(v) + "\x00"
 	case symInt:
 		if v == 'c' {
 			p := r.pool
